@@ -287,6 +287,9 @@ Inductive event :=
 | EDesync (id : Z) (rel abs : Z)           (* keep-alive after request id at offset rel of its body (abs on the connection), which is not where the next request starts *)
 | EClose.                                  (* the server stops reading the connection *)
 
+(* what an observer of the connection sees: everything but the bookkeeping events *)
+Definition visible (e : event) : bool := match e with EParse _ | EClose => false | _ => true end.
+
 Definition zl_of (f : framing) : Z := match f with FChunked _ zl _ => zl | _ => 0 end.
 Definition tl_of (f : framing) : Z := match f with FChunked _ _ tl => tl | _ => 0 end.
 
